@@ -1212,8 +1212,10 @@ result_t NumberDataType::parseInput(const string inputStr, unsigned int* parsedV
       const char* str = inputStr.c_str();
       char* strEnd = nullptr;
       if (m_divisor == 1) {
+        const char* digits = str + strspn(str, " \t+-");
+        int base = (digits[0] == '0' && (digits[1] == 'x' || digits[1] == 'X')) ? 16 : 10;  // no octal
         if (hasFlag(SIG)) {
-          long signedValue = strtol(str, &strEnd, 0);
+          long signedValue = strtol(str, &strEnd, base);
           if (errno == ERANGE
           || (signedValue < 0L ? (signedValue < -(1L << (m_bitCount - 1)))
             : (signedValue >= (1L << (m_bitCount - 1)))
@@ -1226,7 +1228,7 @@ result_t NumberDataType::parseInput(const string inputStr, unsigned int* parsedV
             value = (unsigned int)signedValue;
           }
         } else {
-          unsigned long unsignedValue = strtoul(str, &strEnd, 0);
+          unsigned long unsignedValue = strtoul(str, &strEnd, base);
           if (errno == ERANGE || unsignedValue >= (1UL << m_bitCount)) {
             return RESULT_ERR_OUT_OF_RANGE;
           }
